@@ -1285,7 +1285,7 @@ class FullEngine(Engine):
 
     def typing_facts(self, prm: Param, v: V):
         ty = prm.ty
-        if ty in ("int", "bool", "str", "any", "attrs", "cls", "clsopt", "pack", "adj") or ty.startswith("cb:") or ty.startswith("iter") or ty.startswith("dict") or ty.startswith("list:"):
+        if ty in ("int", "bool", "str", "any", "attrs", "cls", "clsopt", "pack", "adj") or ty.startswith("cb:") or ty.startswith("iter") or ty.startswith("dict") or ty.startswith("list:") or ty.startswith("seq:"):
             return []
         if ty.startswith("cls<="):
             if isinstance(v, VCls):
